@@ -1,4 +1,4 @@
 CONSTANTS NMAX = 3  LMAX = 3  ITERS = 2  KEYS = {1, 2}  EXACTS = {TRUE, FALSE}  TIMEDS = {FALSE}  MAXW = 0
 SPECIFICATION Spec
-INVARIANTS TypeOK C12_All
+INVARIANTS TypeOK C12_All EmitReplay
 CHECK_DEADLOCK FALSE
